@@ -233,33 +233,38 @@ end Tracker
 
 namespace HG
 
+/-- the hypergraph after the `compress_late` branch (core.py:1104-1109) -/
+def preHG (chi : Nat) (late : Bool) (h : HG) (li ri : Nat) : HG :=
+  if late then
+    let h1 := h.compress chi (h.getNode li)
+    h1.compress chi (h1.getNode ri)
+  else h
+
+/-- the tracker after `update_pre_step` and the `compress_late` branch -/
+def preTr (late : Bool) (tr : Tracker) (h hc : HG) (li ri : Nat) : Tracker :=
+  if late then (tr.preStep.preCompress h [li, ri]).postCompress hc [li, ri] else tr.preStep
+
+/-- the hypergraph after the early-compression branch (core.py:1115-1119) -/
+def postHG (chi : Nat) (late : Bool) (h2 : HG) (pi : Nat) : HG :=
+  if late then h2 else h2.compress chi (h2.getNode pi)
+
+def postTr (late : Bool) (tr3 : Tracker) (h2 h3 : HG) (pi : Nat) : Tracker :=
+  if late then tr3 else (tr3.preCompress h2 [pi]).postCompress h3 [pi]
+
 /-- one iteration of the loop of `compressed_contract_stats` (core.py:1098-1121) -/
 def statsStep (chi : Nat) (late : Bool) (st : Option (HG × Tracker)) (lr : Nat × Nat) :
     Option (HG × Tracker) :=
   match st with
   | none => none
   | some (h, tr) =>
-    let (li, ri) := lr
-    let tr := tr.preStep
-    let (h, tr) :=
-      if late then
-        let tr := tr.preCompress h [li, ri]
-        let h := h.compress chi (h.getNode li)
-        let h := h.compress chi (h.getNode ri)
-        (h, tr.postCompress h [li, ri])
-      else (h, tr)
-    let tr := tr.preContract h li ri
-    match h.contract li ri with
+    let h1 := preHG chi late h lr.1 lr.2
+    let tr2 := (preTr late tr h h1 lr.1 lr.2).preContract h1 lr.1 lr.2
+    match h1.contract lr.1 lr.2 with
     | none => none
-    | some (pi, h) =>
-      let tr := tr.postContract h pi
-      let (h, tr) :=
-        if !late then
-          let tr := tr.preCompress h [pi]
-          let h := h.compress chi (h.getNode pi)
-          (h, tr.postCompress h [pi])
-        else (h, tr)
-      some (h, tr.postStep)
+    | some (pi, h2) =>
+      let tr3 := tr2.postContract h2 pi
+      let h3 := postHG chi late h2 pi
+      some (h3, (postTr late tr3 h2 h3 pi).postStep)
 
 /-- `compressed_contract_stats(chi, order, compress_late)`: `path` lists the contractions in
     traversal order as pairs of hypergraph node ids (leaves `0..N-1`, the k-th contraction creates
